@@ -112,6 +112,8 @@ class bspline(object):
                 bkpt = np.sort(x)[xspot].astype('f')
             else:
                 raise ValueError('No information for bkpts.')
+        else:
+            bkpt = np.array(bkpt, dtype=np.result_type(bkpt, np.float32))
         imin = bkpt.argmin()
         imax = bkpt.argmax()
         if x.min() < bkpt[imin]:
